@@ -41,6 +41,9 @@ def main():
     pa.add_argument("--props", default="C12,C16,C17,C18")
     pa.add_argument("--cases", type=int, default=None)
     pa.add_argument("--tier", default="quick")
+    se = sub.add_parser("seeded")
+    se.add_argument("--only", default=None)
+    se.add_argument("--tier", default="quick")
     args = ap.parse_args()
     del b
     master = int(os.environ.get("VERIF_SEED", "0") or 0)
@@ -92,6 +95,10 @@ def main():
             res = mutants.external_patch(args.patch, args.props.split(","), cases=args.cases, tier=args.tier)
             print(json.dumps(res, indent=1))
             sys.exit(0)
+        if args.cmd == "seeded":
+            from . import mutants  # pylint: disable=import-outside-toplevel
+
+            sys.exit(mutants.seeded(only=args.only.split(",") if args.only else None, tier=args.tier))
         if args.cmd == "selftest":
             from . import selftest  # pylint: disable=import-outside-toplevel
 
